@@ -276,6 +276,8 @@ def run(prog, rep):
                     "clone() hands the stored values to the values setter of the copy, which converts every element with dtypes.get: a converter "
                     "that returns its argument makes copy and original share the inner lists of tuple values")
 
+    eq1_rule(prog, rep)
+
     # ----------------------------------------------------------------- LEAF-1
     rep.rule("LEAF-1", "Section.export_leaf: every clone call passes keep_id=True; the Section clones pass children=False; "
                        "Properties are appended as clones; Property.export_leaf delegates to the parent Section")
@@ -312,6 +314,26 @@ def run(prog, rep):
             rep.check(not extra, "LEAF-1", "export_leaf copies the Properties of every chain Section", "guarded by hasattr(<node>, 'properties') only",
                       "the Properties of a chain node are copied only under %s: some Sections on the chain lose their Properties" % extra,
                       where(e.func, e.raw), witness="export_leaf() from a tree whose root is a Section without Document: the root's Properties are missing")
+    # the clone of the previous chain node is attached to every chain node but the first: telling the first node from its ancestors is a test
+    # of the objects themselves; agreement of an attribute (id, name, type) is not identity - keep_id clones and explicit oids repeat ids on a chain
+    for e in apps:
+        arg = e.call.args[-1] if e.call.args else None
+        if not isinstance(arg, ast.Name):
+            continue
+        proxy = []
+        for t, pol in e.guards():
+            try:
+                ge = ast.parse(t, mode="eval").body
+            except SyntaxError:
+                continue
+            if isinstance(ge, ast.Compare) and len(ge.ops) == 1 and isinstance(ge.ops[0], (ast.Eq, ast.NotEq, ast.Is, ast.IsNot)):
+                l, r = ge.left, ge.comparators[0]
+                if isinstance(l, ast.Attribute) and isinstance(r, ast.Attribute) and l.attr == r.attr and unparse(l.value) != unparse(r.value):
+                    proxy.append(t)
+        rep.check(not proxy, "LEAF-1", "export_leaf attaches the chain built so far to every ancestor", "the start node is told apart by the object itself",
+                  "the clone of the previous chain node is attached only under %s: an ancestor that merely carries the same attribute value as the "
+                  "start Section is taken for the start, and the chain below it is dropped" % proxy, where(e.func, e.raw),
+                  witness="snap = sec.clone(keep_id=True); sec.append(snap); snap.export_leaf() ends at `sec`")
     pel = prog.func("property.BaseProperty.export_leaf")
     rep.check(any(unparse(c.func).endswith("parent.export_leaf") for c in calls_in(pel.node)), "LEAF-1",
               "Property.export_leaf delegates to the parent Section", "ok", "Property.export_leaf does not delegate to parent.export_leaf()", pel.where)
@@ -413,3 +435,25 @@ def _converted(val, f, prog=None):
         defs = local_assignments(f.node, val.id)
         return bool(defs) and all(not isinstance(d, ast.AugAssign) and (is_get(x.expand(d)) or (isinstance(x.expand(d), ast.ListComp) and is_get(x.expand(d).elt))) for d in defs)
     return False
+
+
+def eq1_rule(prog, rep, rule="EQ-1"):
+    """BaseObject.__eq__ leaves out the id only"""
+    rep.rule(rule, "BaseObject.__eq__ (the comparison behind `copy == original` and `restored == document`) singles out no attribute name but "
+                   "'id' / 'oid': every other string constant in it (collections of names it tests the key against included) would exempt "
+                   "content from the comparison")
+    f = prog.func("base.BaseObject.__eq__")
+    rep.saw_function(f)
+    from ..dataflow import private_closure
+    names = []
+    for h in private_closure(f):
+        doc = ast.get_docstring(h.node, clean=False)
+        for n in walk_no_nested(h.node):
+            if isinstance(n, ast.Constant) and isinstance(n.value, str) and n.value != doc:
+                names.append((h, n))
+    extra = sorted(set(n.value for h, n in names if n.value not in ("id", "oid")))
+    at = [x for x in names if x[1].value in extra]
+    rep.check(not extra, rule, "BaseObject.__eq__ exempts the id only", "names singled out: %s" % sorted(set(n.value for h, n in names)),
+              "BaseObject.__eq__ treats %s specially: objects that differ there compare equal" % extra,
+              where(at[0][0], at[0][1]) if at else f.where,
+              witness="two Sections that differ only in that attribute are == ; a restored / copied document is reported equal although it is not")
